@@ -1,6 +1,7 @@
 //! nbharness — runs request lines (one per stdin line: `<stream> <op> <arg>*`) against the
 //! real num-bigint built from /repo's working tree and prints one canonical result line each.
 mod wire;
+mod c05;
 mod c01;
 mod c15;
 
@@ -13,6 +14,7 @@ fn handlers() -> Vec<(&'static str, Handler)> {
     vec![
         ("C01", c01::handle as Handler),
         ("C15", c15::handle as Handler),
+        ("C05", c05::handle as Handler),
     ]
 }
 
